@@ -24,10 +24,13 @@ structure Cfg where
   srvCtxErr : Bool
   /-- `startStream` gives the handler a context without the caller's outgoing metadata (fix 8cf1112) -/
   clearOutgoing : Bool
+  /-- the client's `RecvMsg` of a call without server streaming (NewStream) waits for the handler's return
+  after the single response and gives the handler's error instead of the response (fix 14df317) -/
+  holdResponse : Bool
   deriving DecidableEq, Repr
 
-def Cfg.current : Cfg := ⟨true, true, true, true, true⟩
-def Cfg.legacy : Cfg := ⟨false, false, false, false, false⟩
+def Cfg.current : Cfg := ⟨true, true, true, true, true, true⟩
+def Cfg.legacy : Cfg := ⟨false, false, false, false, false, false⟩
 
 /-- Message objects live in a heap: `cells` maps a reference to the payload stored there (newest
 binding first), `next` is the next fresh reference. -/
